@@ -314,7 +314,9 @@ impl Envelope {
                     Self::new_with_encrypted(message).unwrap()
                 },
                 #[cfg(feature = "compress")]
-                ObscureAction::Compress => self.compress().unwrap(),
+                // An element that is already elided or encrypted cannot be
+                // compressed; it is already obscured, so it is left as it is.
+                ObscureAction::Compress => self.compress().unwrap_or_else(|_| self.clone()),
             }
         } else if let EnvelopeCase::Assertion(assertion) = self.case() {
             let predicate = assertion.predicate().elide_set_with_action(target, is_revealing, action);
